@@ -294,5 +294,5 @@ META = {
     "level": "Static decision of the string/key clauses of the round trip: for every escape the writer emits the reader's table decodes it to the original byte, every byte the reader treats specially is "
              "escaped, every string value and object key reaches the output only through the escaper, objects iterate in key order and the hash depends on the dump only. These hold for all strings, which "
              "tests sample sparsely (no test uses a key with a quote).",
-    "note": "Does not decide numeric round trip (primitive::toString/load precision) nor nesting/indentation arithmetic. NUL bytes: recorded as a known finding (the reader is a NUL-terminated scanner).",
+    "note": "Does not decide numeric round trip (primitive::toString/load precision) nor nesting/indentation arithmetic. NUL bytes: recorded as a known finding (the reader is a NUL-terminated scanner). Probed from outside (DESIGN 10.9, probes/P24), not reported by a rule here: an empty key and inf/nan are dumped but cannot be parsed; equal numbers may dump differently (1.5 vs 1.50).",
 }
